@@ -21,8 +21,8 @@ EXPLANATION = ("PGSImpulseSolver::solve (the real projected Gauss-Seidel sweeps,
                "velocity is separating; with unconditional rows only and convergence reported, |[A+D]pi - rhs|_2^2 <= kappa^2 p tol^2 with kappa the Frobenius "
                "norm of the last sweep's error-propagation matrix (computed by the spec from the pinned A, D and the solver's relaxation factor).")
 BOUNDS = ("1-8 multipliers; rank of J 1-4 (A singular when rank < m); maxIters 1-3; row sets listed in spec/C44.py ROWSETS_*; right-hand sides, expansion impulses, "
-          "bounds and tolerance free in groups of <= 3 variables at a time (1 group quick, 3 thorough), the others and J, D, mu pinned at exact rational base points "
-          "(1 quick / 3 thorough); path budget 6 (quick) / 40 (thorough) per instance; products of more than 3000 terms abstracted, obligations whose own polynomial "
+          "bounds and tolerance free in groups of <= 3 variables at a time (1 group quick, 2 thorough), the others and J, D, mu pinned at exact rational base points "
+          "(1 quick / 2 thorough); path budget 6 (quick) / 20 (thorough) per instance and base point; products of more than 3000 terms abstracted, obligations whose own polynomial "
           "exceeds that size are left out (listed in the evidence assumptions)")
 TECHNIQUE = ("Engine S; each query is first sent to z3 as its linear-arithmetic relaxation over monomials (unsat there is a proof), the remaining ones to QF_NRA (nlsat)")
 NOT_COVERED = ("PLUSImpulseSolver (active-set solve through FactorQTZ/LAPACK: out of reach of the instrumentation); '[A+D]pi = rhs' for PGS only to the "
@@ -51,8 +51,8 @@ def instances(tier, seed):
     out = []
     for rows, K, its, opts in (ROWSETS_QUICK if tier == "quick" else ROWSETS_THOROUGH):
         out.append(dict(name="%s/K%d/it%d%s" % (rows, K, its, "/" + opts if opts else ""), args=[rows, str(K), str(its), opts],
-                        paths=6 if tier == "quick" else 40, base_points=1 if tier == "quick" else 3,
-                        flips_per_path=5 if tier == "quick" else 16, abstract_big=True, max_terms=3000, lra_first=True, seed_check=True,
+                        paths=6 if tier == "quick" else 20, base_points=1 if tier == "quick" else 2,
+                        flips_per_path=5 if tier == "quick" else 8, abstract_big=True, max_terms=3000, lra_first=True, seed_check=True,
                         z3_timeout_ms=120000 if tier == "quick" else 300000, flip_timeout_ms=1000))
     return out
 
@@ -63,7 +63,7 @@ def free_sets(inst, tr, tier, rng):
     if len(lin) + len(extra) <= 3:
         return [lin + extra]
     # groups of <= 3 free inputs: the tolerance / bounds (at most two of them) together with right-hand sides; a rotating window over the right-hand sides
-    nwin = 1 if tier == "quick" else 3
+    nwin = 1 if tier == "quick" else 2
     sets = []
     for w in range(nwin):
         e = extra[:2] if w % 2 == 0 else extra[2:4] or extra[:1]
@@ -199,7 +199,9 @@ def obligations(enc, inst, tr):
                     goal.append(Constraint(1, P.sub(pi[r0], lb), "SlipLow: pi=lb"))
                 elif bc != 2:
                     goal = [Constraint(1, P.const(1), "bounded condition %d reported" % bc)]
-                obs.append(Ob(name + " [cond %d]" % bc, goal))
+                # one obligation per literal (a single-literal goal keeps the negated goal a conjunction, which z3 hands to nlsat)
+                for gc in goal:
+                    obs.append(Ob(name + " [cond %d]: %s" % (bc, gc.why), [gc]))
             elif kind in ("l", "s"):
                 n = int(it[2])
                 F2 = {}
